@@ -71,6 +71,55 @@ def corpus(env, rng, which):
         if "root-dir-stale-volume" in which:
             ops += ["closedir $r", "closevol $v", "openroot $v -> $stale", "hasopen", "closedir $stale", "openroot #4242 -> $never", "closedir $never"]
         env.add_script("corpus%d" % j, path, (1, 4, 4), ops, 5000, (), meta)
+    if "lfn-match" in which:
+        # D39: a long-name fragment whose first 11 bytes spell an 8.3 name (sequence byte 0x41 = 'A', UTF-16 U+4242 = "BB")
+        for j, gname in enumerate(["f16_min", "f32_min"]):
+            geo = fsgen.geometry(rng, None, [gname])
+            img, meta = fsgen.build_image(rng, geo, populate=0)
+            v = meta["vol"]
+            node = v.add_file(v.root, "CJK~1.TXT", b"hello", lfn="\u4242" * 5 + "\u4343" * 6 + "\u4444" * 2)
+            meta["files"]["/CJK~1.TXT"] = node
+            path, dev = env.new_image(img, "lfnmatch%d" % j)
+            meta = dict(meta); meta["dev0"] = dev
+            nm = hx("ABBBBBBB.BBB")
+            ops = ["openvol %d -> $v" % meta["slot"], "openroot $v -> $r", "iter $r", "find $r %s" % nm, "open $r %s RO -> $f" % nm,
+                   "len $f", "close $f", "opendir $r %s -> $q" % nm, "delete $r %s" % nm, "iter $r", "find $r %s" % hx("CJK~1.TXT")]
+            env.add_script("corpus-lfnmatch", path, (1, 4, 4), ops, 5000, (), meta)
+    if "mount-hardening" in which:
+        # D36/D37 (repaired: these boot sectors no longer mount) and D38 (known finding: BPB total larger than the partition entry)
+        import struct
+        def bs(spc, reserved, nfats, fatsz, rootent, total):
+            b = bytearray(512)
+            b[0:3] = b"\xeb\x3c\x90"; b[3:11] = b"MSDOS5.0"
+            struct.pack_into("<H", b, 11, 512); b[13] = spc; struct.pack_into("<H", b, 14, reserved); b[16] = nfats
+            struct.pack_into("<H", b, 17, rootent); b[21] = 0xf8
+            struct.pack_into("<H", b, 22, fatsz); struct.pack_into("<I", b, 32, total)
+            b[43:54] = b"NO NAME    "; b[510] = 0x55; b[511] = 0xaa
+            return bytes(b)
+        def mbr(entries):
+            b = bytearray(512)
+            for i, (ty, start, size) in enumerate(entries):
+                o = 446 + 16 * i; b[o + 4] = ty; struct.pack_into("<I", b, o + 8, start); struct.pack_into("<I", b, o + 12, size)
+            b[510] = 0x55; b[511] = 0xaa
+            return bytes(b)
+        fat0 = bytes(bytearray(b"\xf8\xff\xff\xff") + bytes(508))
+        class Raw:
+            def __init__(self, dev): self.dev = dev
+            def write(self, path, dev=None):
+                with open(path, "w") as fh:
+                    for i in sorted(self.dev): fh.write("%d %s\n" % (i, self.dev[i].hex()))
+                return self.dev
+        cases = {
+            "res0": {0: mbr([(6, 2048, 5096)]), 2048: bs(1, 0, 2, 32, 512, 5096)},
+            "nfats0": {0: mbr([(6, 2048, 5033)]), 2048: bs(1, 1, 0, 32, 512, 5033)},
+            "cover16": {0: mbr([(6, 2048, 5035)]), 2048: bs(1, 1, 2, 1, 512, 5035), 2049: fat0, 2050: fat0},
+            "psize": {0: mbr([(6, 1, 97), (6, 98, 10000)]), 1: bs(1, 1, 2, 32, 512, 5097), 2: fat0, 34: fat0, 98: bs(1, 1, 2, 40, 512, 10000)},
+        }
+        for tag, dev in cases.items():
+            path, dev = env.new_image(Raw(dev), "mh-" + tag)
+            meta = dict(geo="raw-" + tag, files={}, dirs={}, fat32=False, spc=1, N=0, slot=0, dev0=dev)
+            ops = ["openvol 0 -> $v", "openroot $v -> $r", "mkdir $r %s" % hx("A"), "open $r %s RWC -> $f" % hx("N.TXT"), "write $f 600 1", "close $f", "iter $r"]
+            env.add_script("corpus-mh-" + tag, path, (1, 4, 4), ops, 5000, (), meta)
     if "fsinfo-location" in which:
         # D34: a FAT32 boot sector whose BPB_FSInfo names the boot sector itself (which carries the three info-sector
         # signatures) or a FAT sector / data block carrying them: must not mount; before the repair flush/close wrote
@@ -411,6 +460,8 @@ def c04_writes(tr, k, g, prev, dev, sc):
         where = None
         if not (g.lba < idx < g.end):
             out.append("op %d (%s): write to block %d outside the partition (%d..%d) or to its boot sector" % (k, op, idx, g.lba, g.end - 1)); continue
+        if idx >= g.lba + g.psize:
+            out.append("op %d (%s): write to block %d beyond the partition entry (%d blocks from %d): partition-size" % (k, op, idx, g.psize, g.lba)); continue
         if g.fat_start <= idx < g.fat_start + g.nfats * g.fat_size:
             rel = (idx - g.fat_start) % g.fat_size
             esz = 4 if g.fat32 else 2
@@ -457,6 +508,12 @@ def check_C03(run, replay=None):
                 what="the medium is not a well-formed FAT volume after a call returned")
     return finish(run, env, "C03", "histories incl. failing calls on all geometries, volumes with 0-3 free clusters, full FAT16 roots, multi-cluster directories; oracle = independent structural checker (gen/fatck.py fsck: chains in range/acyclic/terminated/disjoint/long enough, unique names, dot entries, nothing after the end marker) on the implementation's medium after every call that wrote")
 
+def c04_known(sc):
+    # D38 is recorded for exactly this input: the corpus image whose BPB claims 5097 blocks in a 97-block partition entry
+    if sc["name"].startswith("corpus-mh-psize"):
+        return lambda p: "partition-size" if p.endswith(": partition-size") else None
+    return None
+
 def check_C04(run, replay=None):
     env = F.Env(run, "C04.v")
     if not env.ok:
@@ -469,7 +526,7 @@ def check_C04(run, replay=None):
     F.std_scenarios(env, rng, n // 3, prof, nops=(20, 50), img_kw=dict(second_partition=True), limits=(2, 4, 4))
     F.std_scenarios(env, rng, n // 3, prof, nops=(20, 50), img_kw=dict(free_left=1), want=["f16_min", "f16_slack", "f16_spc8", "f32_min", "f16_exact", "f32_exact"])
     F.std_scenarios(env, rng, n // 3, prof, nops=(20, 50))
-    corpus(env, rng, {"fsinfo-location"})
+    corpus(env, rng, {"fsinfo-location", "mount-hardening"})
     env.run_all(writes=True)
     bad = 0
     for sc in env.scripts:
@@ -487,9 +544,9 @@ def check_C04(run, replay=None):
                     if dev.get(i, fatck.ZERO) != sc["meta"]["dev0"].get(i, fatck.ZERO):
                         probs.append("block %d of the neighbour partition changed" % i); break
         if probs:
-            bad += report_oracle(run, env, sc, probs, "a device write left the region the call may change")
+            bad += report_oracle(run, env, sc, probs, "a device write left the region the call may change", known=c04_known(sc))
     common_tail(run, env, run.coverage.get("theorems", []), oracle=lambda sc: per_op_image_checks(run, env, sc, {"c04"}),
-                what="a device write left the region the call may change")
+                what="a device write left the region the call may change", known=lambda p: "partition-size" if p.endswith(": partition-size") else None)
     return finish(run, env, "C04", "every block write of every history on single- and multi-partition devices (canary neighbour), volumes with one free cluster, FAT sectors with and without slack; oracle = region/bounds classification of each write of the implementation's write log against the pre-write medium (partition bounds, boot/reserved sectors, FAT entries within the cluster range, FAT32 high nibble, info-sector fields, data area end)")
 
 def check_C05(run, replay=None):
@@ -573,7 +630,7 @@ def check_C06(run, replay=None):
     F.std_scenarios(env, rng, max(n // 10, 4), prof, nops=(15, 35), want=["f32_root5"], img_kw=dict(free_left=12), per_image=2)
     ro = fsgen.profile(weights=dict(iter=14, find=10, opendir=10, closedir=6, open=3, close=2, delete=0, mkdir=0, write=0, bad=1, read=0, seek=0, query=0, io=0, remount=1, flush=0))
     F.std_scenarios(env, rng, max(n // 8, 6), ro, nops=(12, 30), want=["f32_root5", "f32_oor", "f16_spc8", "f16_spc2", "f16_spc128"], img_kw=dict(stale_tail=True), per_image=2)
-    corpus(env, rng, {"e5-name"})
+    corpus(env, rng, {"e5-name", "lfn-match"})
     grow_scripts(env, rng, max(n // 10, 4), big=True)
     env.run_all(writes=True)
     bad = 0
@@ -643,9 +700,8 @@ def c06_oracle(sc):
                     if okk and bind:
                         dslot[bind] = dslot[op[1]]
                     continue
-                # lookup matches raw 11 bytes, deleted/end excluded, LFN slots can match only by accident
-                allslots = [e for e in fatck.read_dir(dev, g, blocks, [], "")]
-                hit = next((e for e in allslots if e.name == s11), None)
+                # lookup succeeds exactly for names the listing contains: long-name fragments never match (D39)
+                hit = next((e for e in live if e.name == s11), None)
                 if op[0] == "find":
                     if okk != (hit is not None) and tr.err(k) in (None, "NotFound"):
                         if hit is None and s11[0] == 0xE5:
